@@ -1132,6 +1132,9 @@ def replay_case(ctx, drv, workdir):
 def run(ctx):
     import gen_frontconsts
     t0 = time.time()
+    if not getattr(ctx, "replay", None):
+        for old in glob.glob(os.path.join(ctx.outdir, "replay_*.json")):
+            os.unlink(old)
     g = gen_frontconsts.generate()
     ctx.coverage["regenerated"] = {"file": "coq/Gen/FrontConsts.v", "values": g["values"], "changed_this_run": g["changed"]}
     if g["problems"]:
